@@ -11,7 +11,8 @@ COMMON_ASSUMPTIONS = [
 
 HISTORY_RULE = ("rapid draws whole histories (1-25 steps quick, 1-60 thorough) of packets (constructed orbiter transfers over all "
                 "routes/recipients/fee lists/denoms/amount classes incl. every bit length up to 256, other receiver spellings, mutated and garbage "
-                "memos, packet data in JSON spellings on which decoders disagree, Hyperlane routes naming another denomination's token), admin "
+                "memos, packet data in JSON spellings on which decoders disagree, Hyperlane routes naming another denomination's token, payloads "
+                "naming the action the application registers no controller for), admin "
                 "messages and environment steps (direct deposits, re-escrow, FTF pause/blacklist, CCTP burn limit), executed on a "
                 "branch of the real SimApp; the oracle runs after every packet step. ")
 
@@ -123,7 +124,9 @@ PROPERTIES = {
                 "interleaved with probe transfers with and without a fee action. After every message: model verdict == result, model set == "
                 "exported state == both executor queries. Every probe runs on S and on S with every action pause removed: payload "
                 "containing a paused action => error ack and empty ledger delta; otherwise identical ack and ledger delta. "
-                "Non-trivial = a probe executed while >= 1 action is paused; distinct by (paused set, probe).",
+                "A third of the probes in the application's own wiring also name ACTION_SWAP (alone, before or after the fee), which can be paused "
+                "but has no controller there: error ack required, paused or not, never a panic. The LAB variant repeats the check with a second "
+                "registered controller. Non-trivial = a probe executed while >= 1 action is paused; distinct by (paused set, probe).",
         "assumptions": COMMON_ASSUMPTIONS + ["TestC09Lab repeats the check in the LAB world where a second (denomination-changing) action controller is registered: pausing one action leaves payloads with only the other unaffected, and no call of a paused action is recorded"],
         "tests": [
             {"test": "TestC09History", "quick": 300, "thorough": 160000},
@@ -135,7 +138,8 @@ PROPERTIES = {
         "level": "exploration",
         "rule": "rapid draws histories of UpdateParams (values 0, 1, small, 2^16, 2^32-1 and arbitrary 32-bit values; authority and foreign "
                 "signers) and after the initial state and after every step probes the same valid transfer with passthrough lengths "
-                "0, 1, limit-1, limit, limit+1, 2*limit+7 (capped at 64 KiB): within the limit => success, above => error ack; the Params query "
+                "0, 1, limit-1, limit, limit+1, 2*limit+7 (capped at 64 KiB; the probe memo is serialised WITHOUT the module's validating "
+                "constructors): within the limit => success, above => error ack; the Params query "
                 "must report the last successfully set value. Non-trivial = a probe pair straddling a non-zero limit after >= 1 update; "
                 "distinct by (number of updates, limit, length).",
         "assumptions": COMMON_ASSUMPTIONS + ["limits above 64 KiB are probed from below only"],
@@ -160,7 +164,8 @@ PROPERTIES = {
         "level": "exploration",
         "rule": HISTORY_RULE + "After EVERY step the exported dispatcher state is compared with a ledger the harness folds from the "
                 "successful constructed transfers (received coin, forwarded coin computed by the reference model, count). "
-                "TestC12FromGenesis starts the history from an IMPORTED genesis: prior totals (up to 2^255) and counters (up to 2^64-1) for the "
+                "TestC12FromGenesis starts the history from an IMPORTED genesis (in 15% of the cases with 1..130 further routes, so that the ledger "
+                "exceeds one default page of 100): prior totals (up to 2^255) and counters (up to 2^64-1) for the "
                 "routes the history uses; the fold continues from them; a counter asked to exceed 2^64-1 is a counted don't-care while the totals "
                 "of that route are still compared. "
                 "Non-trivial = a history with >= 2 successful transfers on >= 2 statistics keys and >= 1 refused transfer, or a successful "
@@ -185,6 +190,8 @@ PROPERTIES = {
                 "error texts must be equal. Thorough tier adds a native coverage-guided campaign (go test -fuzz, 240 s, 16 workers) on a "
                 "light package that does not link the application, with the same oracle inside the target (no panic, acceptance => "
                 "well-formed, purity over 7 parses on two parser instances), seeded with valid memos of every route and hostile constants. "
+                "Type URLs: besides a hand-picked list, the attributes object is replaced by {\"@type\": U} alone for U drawn from EVERY type URL "
+                "registered in the application's interface registry (enumerated at start-up), so that nothing but the type can be the reason to refuse. "
                 "Non-trivial = an accepted memo, a round-tripped payload, or a fuzz corpus entry that reached new coverage; distinct by memo text.",
         "assumptions": COMMON_ASSUMPTIONS + ["repeated JSON keys are judged only by the purity clause (the statement does not say which occurrence counts)"],
         "tests": [
@@ -348,7 +355,9 @@ PROPERTIES["C17"] = {
             "through InitChain with the exported section. (b) rapid draws genesis documents directly over the genesis types: repeated paused "
             "ids, boundary identifiers (max length, separators, NUL and non-UTF-8 bytes, non-canonical numbers), zero/negative amounts, nil "
             "members, unknown enum numbers, duplicate entries; ValidateGenesis(doc) == nil => InitGenesis(doc) does not panic, and the resulting "
-            "state round-trips. Non-trivial = a state with >= 2 populated collections / an accepted non-default document; distinct by genesis JSON.",
+            "state round-trips. The round trip of reachable states starts 20% of its cases from prior statistics of 1..250 routes and asserts that "
+            "every key of the original module store is present with the same value in the re-initialised store (nothing is lost on the way). "
+            "Non-trivial = a state with >= 2 populated collections / an accepted non-default document; distinct by genesis JSON.",
     "assumptions": COMMON_ASSUMPTIONS + ["a panic inside ValidateGenesis is not an acceptance: counted as an observation, not a violation"],
     "tests": [
         {"test": "TestC17RoundTrip", "quick": 400, "thorough": 160000},
